@@ -271,6 +271,14 @@ def column_sweep(ctx):
     """Every catalogued column header, alone, in each case/spacing style: the random pick of t_header_case reaches rare columns too seldom."""
     form = sweep_form()
     sheets = form.to_sheets()
+    _column_sweep_over(ctx, form, sheets)
+    # ... and once more with both id headers on the settings sheet (form_id is the one that counts, and a warning says so, however either is spelled)
+    form2 = sweep_form()
+    form2.settings = dict(form2.settings, id_string="other_id")
+    _column_sweep_over(ctx, form2, form2.to_sheets(), only_sheets=("settings",), tag="both-ids")
+
+
+def _column_sweep_over(ctx, form, sheets, only_sheets=None, tag=""):
     a = drive.convert_sheets(sheets, args=form.args)
     if not a.ok:
         ctx.ctr("sweep_form_rejected")
@@ -279,6 +287,10 @@ def column_sweep(ctx):
     n = 0
     for key, known in (("survey", spelling.KNOWN_SURVEY), ("choices", spelling.KNOWN_CHOICES), ("settings", spelling.KNOWN_SETTINGS),
                        ("external_choices", {"list_name", "name", "label"})):
+        if only_sheets and key not in only_sheets:
+            continue
+        if tag == "both-ids":
+            known = {"form_id", "id_string"}
         hdrs, rows = sheets[key]
         for ci, h in enumerate(hdrs):
             if h not in known:
@@ -296,7 +308,7 @@ def column_sweep(ctx):
                     b = drive.convert_sheets(ts, fmt=fmt, args=form.args)
                     ctx.ctr("column_sweep_pairs")
                     ctx.ctr("pairs_compared")
-                    ctx.case(sig=f"sweep|{key}|{h}|{style}|{fmt}")
+                    ctx.case(sig=f"sweep{tag}|{key}|{h}|{style}|{fmt}")
                     done = [f"header-case:{key}:{h}->{nb!r}"]
                     diffs = differences(a, b, {})
                     for kind, text in diffs:
@@ -307,7 +319,9 @@ def column_sweep(ctx):
             for alt in table.get(h, ()):
                 for variant in (alt, alt.upper() if "::" not in alt else alt.split("::")[0].upper() + "::" + alt.split("::", 1)[1]):
                     if variant != alt and ":" in alt and "::" not in alt:
-                        continue  # 'jr:count' is an attribute name spelled with its prefix: its letter case is not a documented freedom
+                        continue
+                    if variant.lower() in [str(x).lower() for x in hdrs if x is not None]:
+                        continue  # the alias is already a column of this sheet: renaming would make a duplicate header, another workbook altogether  # 'jr:count' is an attribute name spelled with its prefix: its letter case is not a documented freedom
                     n += 1
                     if not ctx.mine(n):
                         continue
@@ -316,7 +330,7 @@ def column_sweep(ctx):
                     b = drive.convert_sheets(ts, args=form.args)
                     ctx.ctr("column_sweep_pairs")
                     ctx.ctr("pairs_compared")
-                    ctx.case(sig=f"sweep|{key}|{h}|alias|{variant}")
+                    ctx.case(sig=f"sweep{tag}|{key}|{h}|alias|{variant}")
                     done = [f"header-alias:{key}:{h}->{variant}"]
                     for kind, text in differences(a, b, {}):
                         ctx.viol(f"{kind}:header-alias:{key}", f"column sweep, T={done}: {text}"[:900], _wit(form, done, {}, "dict", ts))
